@@ -123,7 +123,7 @@ func vfSameInts(a, b []int) bool {
 }
 
 func vfSameEnvData(a, b *vfEnv) bool {
-	if a.A != b.A || a.B != b.B || a.I64 != b.I64 || a.U8 != b.U8 || a.P != b.P || a.Q != b.Q || a.S != b.S || a.T != b.T {
+	if a.A != b.A || a.B != b.B || a.I64 != b.I64 || a.U8 != b.U8 || a.I8 != b.I8 || a.P != b.P || a.Q != b.Q || a.S != b.S || a.T != b.T {
 		return false
 	}
 	if !(a.F == b.F || (a.F != a.F && b.F != b.F)) {
